@@ -173,11 +173,13 @@ def host_cases(draw, tier):
             'row_seed': draw(st.integers(0, 2 ** 20))}
     if kind == 'mul':
         case['mode'] = draw(st.sampled_from(list(ADD_MUL)))
-        case['a'] = arith.operand_picks(draw, draw(st.integers(1, 5)), allow_repeat=True)
-        case['b'] = arith.operand_picks(draw, draw(st.integers(1, 5)), allow_repeat=True)
+        # host operands do not enlarge the table: sometimes long and lopsided numbers
+        width = st.one_of(st.integers(1, 5), st.integers(1, 5), st.integers(6, 24))
+        case['a'] = arith.operand_picks(draw, draw(width), allow_repeat=True)
+        case['b'] = arith.operand_picks(draw, draw(width), allow_repeat=True)
     else:
         case['mode'] = draw(st.sampled_from(SQ_MODES))
-        case['a'] = arith.operand_picks(draw, draw(st.integers(1, 6)), allow_repeat=True)
+        case['a'] = arith.operand_picks(draw, draw(st.one_of(st.integers(1, 6), st.integers(1, 6), st.integers(7, 20))), allow_repeat=True)
     return case
 
 
@@ -224,7 +226,8 @@ SPEC = {
     'rule': ('Finite sweep (sharded): generate_mul for all width pairs 1..5 (1..8 thorough, plus 9..12 sampled rows) x 6 modes x '
              'both endiannesses and generate_square n=1..8 (1..10) x 2 modes x both endiannesses, exhaustive over all operand '
              'values up to 14 input bits (else 2^11 / 2^14 seeded rows + corner operands); recursion-triggering widths '
-             '(Karatsuba 18, 20, 21, 24 ..., squares 48, 49, 50, 53 ...). Hypothesis part: every add_mul* / add_square* on '
+             '(Karatsuba 18, 20, 21, 24 ..., squares 48, 49, 50, 53 ...); lopsided shapes 1-3 (1-5) x 9-16, 24, 30 (9-33, 40, 48) in both '
+             'orders x every mode. Hypothesis part: every add_mul* / add_square* on '
              'arbitrary (internal, repeated, shared) gates of a generated host circuit. Oracle: bit-sliced integer product of the '
              'reference operand vectors == decoded result in the requested endianness, documented result length, host '
              'discipline. Non-trivial: both widths >= 2.'),
